@@ -39,6 +39,7 @@ func checkC20(r *Report, p *Program) {
 	// a start that fails leaves no subscription behind: the factory's reference count table (shared with C18)
 	r18_2(r, p)
 	etagEnabledTable(r, p, "R20.11")
+	webhookURLTable(r, p, "R20.12")
 	// the reconcilers' error checks mean what they say (a start that is skipped on success, or goes on after a failure)
 	errorChecksMeanWhatTheySay(r, p, "R20.10")
 }
